@@ -80,7 +80,15 @@ def matches_known(kf, violations, prop=None):
     sig = kf.get("signature", [])
     if isinstance(sig, dict):
         sig = sig.get(prop, sig.get("*", ["\0never"]))
-    return all(s in text for s in sig)
+    if not all(s in text for s in sig):
+        return False
+    only = kf.get("only_lines", {}).get(prop) if isinstance(kf.get("only_lines"), dict) else None
+    if only is not None:
+        # the finding is keyed on the exact calls that fail: any other failing call is a different violation
+        lines = {v.get("line") for v in violations if isinstance(v, dict) and v.get("line") is not None}
+        if not lines <= set(only):
+            return False
+    return True
 
 
 def cmd_check(args):
